@@ -367,6 +367,17 @@ fn handle_established(
             }
         }
 
+        // A segment that occupies sequence space (data, FIN, or a
+        // duplicate SYN-ACK) but was not accepted — duplicate, out of
+        // order, or no room — is answered with an ACK carrying our
+        // current `rcv_nxt` and window (RFC 9293 §3.10.7.4). Without it a
+        // peer whose ACK (or handshake ACK) was lost keeps
+        // retransmitting into silence until it gives up.
+        let occupies_seq = !s.payload.is_empty() || s.flags.fin || s.flags.syn;
+        if occupies_seq && !send_ack {
+            send_ack = true;
+        }
+
         if wake_write {
             st.wake_write();
         }
